@@ -405,7 +405,7 @@ func runProp(cfg runConfig) int {
 		for i, c := range cases {
 			kinds[c.Kind]++
 			cls := implOut[i]
-			if j := strings.IndexAny(cls, " :["); j >= 0 {
+			if j := strings.IndexAny(cls, " :[."); j >= 0 {
 				cls = cls[:j]
 			}
 			if len(cls) > 24 {
